@@ -20,6 +20,25 @@ SITE_TABLE = {
     'Story::perform_logic_and_flow_control|HashMap::iter|#0':
         (('sorted:collect-into-Vec-then-sort_by(closure->InkList::cmp_items)',), 'total:InkList::cmp_items',
          'LIST_RANDOM indexes into the entries sorted by the (reversed) total entry order'),
+    'json_read_stream::jtoken_to_runtime_object|<HashMap as IntoIterator>::into_iter|#0':
+        (('mapkey-derived:via_InkListItem::from_full_name:HashMap::insert',), 'ok',
+         'key = InkListItem::from_full_name(full name): injective on the "origin.item" names of one saved list'),
+    'json_write::write_ink_list|HashMap::iter|#0':
+        (('mapkey-derived:via_String::new:Map::insert',), 'ok',
+         'key = "<origin>.<item>" built from the element\'s own key: injective, items are unique per (origin, item)'),
+    'ListDefinition::get_items|<&HashMap as IntoIterator>::into_iter|#0':
+        (('mapkey-derived:via_InkListItem::new:HashMap::insert',), 'ok',
+         'key = InkListItem(this list\'s name, item name): injective in the iterated item name'),
+    'ListDefinitionsOrigin::new|<&HashMap as IntoIterator>::into_iter|#0':
+        (('mapkey-derived:via_InkListItem::get_full_name:HashMap::insert',
+          'mapkey-derived:via_InkListItem::get_item_name:HashMap::insert'), 'ok',
+         'the hash iteration is over the items of ONE list, whose full names and item names are unique; collisions of '
+         'bare item names ACROSS lists are resolved by the enclosing loop, which walks the caller\'s Vec in document '
+         'order (it is not a hash iteration: any such site would be a new, unclassified entry)'),
+    'NativeFunctionCall::call_list_increment_operation|HashMap::iter|#0':
+        (('mapkey-derived:via_ListDefinition::get_item_with_value:HashMap::insert',), 'ok',
+         'two elements map to the same incremented item only when they share origin and value, and then the inserted '
+         'value (value +/- n) is the same too: identical (key, value) pairs'),
     'InkList::get_origin_names|HashMap::keys|#0':
         (('seq:Vec::push',), 'ok',
          'the names are used as a set by both consumers (StoryState::push_evaluation_stack rebuilds `origins`, which '
@@ -90,8 +109,7 @@ def run(chk, prog):
     tr = Tracer(prog)
     chk.not_decided += ['float formatting / arithmetic agreement between debug and release builds (values)',
                         'byte-identity of compiler output beyond "no unordered iteration reaches the emitter"',
-                        'that two inserts into one map inside an order-free loop never collide on a key '
-                        '(assumed: keys derive from the iterated map\'s own unique keys)']
+                        ]
     R1 = 'C03.hash-order'
     chk.rule(R1, 'Every iteration over a HashMap/HashSet in bladeink, bladeink-compiler and rinklecate is either '
              'order-free by construction (per-element work only inserts/removes/looks up in maps and sets, accumulates '
